@@ -283,6 +283,24 @@ pub fn tree_has_assignment(node: &Node) -> bool {
     is_assignment_operator(node.operator()) || node.children().iter().any(tree_has_assignment)
 }
 
+/// True if the target of every plain `=` in the tree is an identifier (or a string constant): only
+/// then does a mutable evaluation do nothing between evaluating the operands and asking the
+/// context to store (a target that is not a string fails with ExpectedString before that).
+pub fn assignment_targets_are_names(node: &Node) -> bool {
+    let ok_here = if *node.operator() == Operator::Assign {
+        match node.children().first().map(|c| c.operator()) {
+            Some(Operator::VariableIdentifierWrite { .. }) => true,
+            Some(Operator::Const {
+                value: Value::String(_),
+            }) => true,
+            _ => false,
+        }
+    } else {
+        true
+    };
+    ok_here && node.children().iter().all(assignment_targets_are_names)
+}
+
 pub fn tree_has_op_assignment(node: &Node) -> bool {
     (is_assignment_operator(node.operator()) && *node.operator() != Operator::Assign)
         || node.children().iter().any(tree_has_op_assignment)
